@@ -87,6 +87,30 @@ def handle_downlink_macs(c, res):
                 res.require(implied(conds, ack), 'C08:handle_downlink_macs:%s:%s-not-guarded-by-%s' % (an, what, nm),
                             '%s: state change (%s) is not guarded by the acknowledgement bit %s = %s' % (an, what, nm, term_str(ack)),
                             short_site(bf, e['bb'], e['si']), 'DOM(write => every reported ack)', instance='%s: %s guarded by %s' % (an, what, nm))
+    # converse: a fully acknowledged request is always applied - the writes carry no guard beyond the arm selection,
+    # the fixed-plan test and the acknowledgement bits themselves
+    for an, arm in sorted(names.items()):
+        for e in arm['effects']:
+            conds = path_conditions(bf, e['bb'])
+            what = e['callee'].split('::')[-1] if e['kind'] == 'call' else 'store ' + '.'.join(e['path'])
+            extra = []
+            for x in conds:
+                if is_cmd_discr(x[0]):
+                    continue
+                if x[0][0] == 'discr' and term_contains(x[0], lambda y: isinstance(y, tuple) and y[:1] == ('call',) and y[1].endswith('Iterator::next')) and x[0][1][0] == 'call':
+                    continue   # while let Some(cmd) = iter.next()
+                if x[0][0] == 'call' and x[0][1].endswith('has_fixed_channel_plan'):
+                    continue
+                if x[0][0] == 'discr' and x[0][1][0] == 'call' and x[0][1][1].endswith('Peekable::peek'):
+                    continue   # last request of a LinkADRReq block
+                if x[0][0] == 'discr' and x[0][1][0] == 'field' and term_contains(x[0], lambda y: isinstance(y, tuple) and y[:1] == ('call',) and y[1].endswith('Peekable::peek')):
+                    continue
+                if any(implied([x], ack) for (nm, ack, abb) in arm['acks']):
+                    continue
+                extra.append(x)
+            res.require(not extra, 'C08:handle_downlink_macs:%s:%s-extra-guard' % (an, what),
+                        '%s: a fully acknowledged request is not always applied (%s has an extra guard %s)' % (an, what, [(term_str(x[0]), x[1]) for x in extra]),
+                        short_site(bf, e['bb'], e['si']), 'EXACT-GUARD(write <=> all acks)', instance='%s: %s applied whenever every ack is set' % (an, what))
     if n_eff < 9:
         raise CheckError('floor: state effects in handle_downlink_macs %d < 9' % n_eff)
     # (b) provenance of stored values
